@@ -247,25 +247,35 @@ type plainCase struct {
 	name string
 	mk   func() interface{}
 	zero func() interface{}
+	grow func(m interface{}) // changes a NESTED message of m in place so that its encoded size changes (nil: no nested message)
 }
 
 func plainCases() []plainCase {
 	long := strings.Repeat("abc", 50)
 	st, _ := structpb.NewStruct(map[string]interface{}{"k": "v", "n": 1.5, "l": []interface{}{true, nil}})
 	return []plainCase{
-		{"gv2", "Timestamp", func() interface{} { return &timestamppb.Timestamp{Seconds: 1700000000, Nanos: 5} }, func() interface{} { return &timestamppb.Timestamp{} }},
-		{"gv2", "Duration", func() interface{} { return &durationpb.Duration{Seconds: -3} }, func() interface{} { return &durationpb.Duration{} }},
-		{"gv2", "Struct", func() interface{} { return proto.Clone(st) }, func() interface{} { return &structpb.Struct{} }},
-		{"gv2", "StringValue", func() interface{} { return wrapperspb.String(long) }, func() interface{} { return &wrapperspb.StringValue{} }},
+		{"gv2", "Timestamp", func() interface{} { return &timestamppb.Timestamp{Seconds: 1700000000, Nanos: 5} }, func() interface{} { return &timestamppb.Timestamp{} }, nil},
+		{"gv2", "Duration", func() interface{} { return &durationpb.Duration{Seconds: -3} }, func() interface{} { return &durationpb.Duration{} }, nil},
+		{"gv2", "Struct", func() interface{} { return proto.Clone(st) }, func() interface{} { return &structpb.Struct{} }, func(m interface{}) {
+			l := m.(*structpb.Struct).Fields["l"].GetListValue()
+			l.Values = append(l.Values, structpb.NewStringValue(long), structpb.NewNumberValue(7))
+		}},
+		{"gv2", "StringValue", func() interface{} { return wrapperspb.String(long) }, func() interface{} { return &wrapperspb.StringValue{} }, nil},
 		{"gv2", "DescriptorProto", func() interface{} {
 			return &descriptorpb.DescriptorProto{Name: proto.String("M"), Field: []*descriptorpb.FieldDescriptorProto{{Name: proto.String("f"), Number: proto.Int32(1)}}}
-		}, func() interface{} { return &descriptorpb.DescriptorProto{} }},
+		}, func() interface{} { return &descriptorpb.DescriptorProto{} }, func(m interface{}) {
+			f := m.(*descriptorpb.DescriptorProto).Field[0]
+			f.Name, f.TypeName = proto.String(long), proto.String(".pkg.T")
+		}},
 		{"gogo", "DescriptorProto", func() interface{} {
 			return &gogodesc.DescriptorProto{Name: gogoproto.String("M"), Field: []*gogodesc.FieldDescriptorProto{{Name: gogoproto.String("f"), Number: gogoproto.Int32(-1)}}}
-		}, func() interface{} { return &gogodesc.DescriptorProto{} }},
+		}, func() interface{} { return &gogodesc.DescriptorProto{} }, func(m interface{}) {
+			f := m.(*gogodesc.DescriptorProto).Field[0]
+			f.Name, f.TypeName = gogoproto.String(long), gogoproto.String(".pkg.T")
+		}},
 		{"gogo", "FileDescriptorProto", func() interface{} {
 			return &gogodesc.FileDescriptorProto{Name: gogoproto.String(long), Dependency: []string{"a", "", "b"}}
-		}, func() interface{} { return &gogodesc.FileDescriptorProto{} }},
+		}, func() interface{} { return &gogodesc.FileDescriptorProto{} }, nil},
 	}
 }
 
@@ -547,7 +557,7 @@ func (d *Driver) FamDispatch(perType, G int) {
 			am := d.sanitize(t, d.S.WithRequired(t, d.S.Random(t, d.R, 0, 5), d.R))
 			other := d.sanitize(t, d.S.WithRequired(t, d.S.Random(t, d.R, 0, 5), d.R))
 			if n == 0 {
-				am = d.S.WithRequired(t, d.S.Empty(t), d.R)
+				am = d.sanitize(t, d.S.WithRequired(t, d.S.Empty(t), d.R))
 			}
 			ti := ti
 			mk := func() interface{} { return d.Build(ti, am) }
@@ -559,6 +569,50 @@ func (d *Driver) FamDispatch(perType, G int) {
 	for _, pc := range plainCases() {
 		d.W.NextGroup()
 		d.dispatchOne(pc.fl, "plain/"+pc.fl+"/"+pc.name, pc.mk, pc.zero, pc.zero, crossFor[pc.fl])
+		if pc.grow != nil {
+			// a message without fast-marshal code that was sized / marshaled before and then changed in a nested message: the owning
+			// runtime recomputes every cached size, so must csproto (plain types only: for fast-marshal types this is C09's finding)
+			rt := runtimeOf(pc.fl)
+			for _, first := range []string{"csproto.Marshal", "csproto.Size", "runtime.Marshal", "GrpcCodec.Marshal"} {
+				e := &DEv{C: "disp", Op: "MarshalMutated", Fl: specFlavour(pc.fl), Key: "plain/" + pc.fl + "/" + pc.name + "/" + first}
+				var err error
+				guard(&e.St, &e.Note, func() {
+					m := pc.mk()
+					switch first {
+					case "csproto.Marshal":
+						_, _ = csproto.Marshal(m)
+					case "csproto.Size":
+						_ = csproto.Size(m)
+					case "runtime.Marshal":
+						_, _ = rt.marshal(m)
+					default:
+						_, _ = csproto.GrpcCodec{}.Marshal(m)
+					}
+					pc.grow(m)
+					var b []byte
+					b, err = csproto.Marshal(m)
+					e.Stab = retain(b)
+					if err != nil {
+						return
+					}
+					fresh := pc.zero()
+					e.X1 = b2i(rt.unmarshal(b, fresh) == nil && rt.equal(m, fresh))
+					e.Szok = b2i(csproto.Size(m) == len(b))
+					gb, gerr := csproto.GrpcCodec{}.Marshal(m)
+					f2 := pc.zero() // (not byte equality: map fields are marshaled in random order)
+					e.Same = b2i(gerr == nil && len(gb) == len(b) && rt.unmarshal(gb, f2) == nil && rt.equal(m, f2))
+					e.Cls = clsName(csproto.MsgType(m))
+				})
+				if e.St == "" {
+					if err != nil {
+						e.St, e.Note = "err", err.Error()
+					} else {
+						e.St = "ok"
+					}
+				}
+				d.emitD(e)
+			}
+		}
 		d.msgTypeConc(specFlavour(pc.fl), "plain/"+pc.fl+"/"+pc.name, pc.zero, G)
 	}
 	var nilMsg *timestamppb.Timestamp
